@@ -13,6 +13,7 @@ import (
 	"verifharness/core"
 	"verifharness/gen"
 	"verifharness/mon"
+	"verifharness/sched"
 )
 
 func init() {
@@ -129,6 +130,11 @@ func c06Ties(r *core.Run, c *c06Case) {
 		if k%3 == 1 {
 			// unrelated calls in between (A-B-A)
 			detRun([]byte("goroutine 1 [running]:\nmain.other(0x1)\n\t/x/y.go:1 +0x1\n"), namingOpts())
+		}
+		if k%3 == 2 {
+			// ... including one whose source hands over its last bytes together with io.EOF and which stops
+			// before draining them (a dump followed by more text)
+			scanOnceSrc(&sched.Scripted{Data: []byte("goroutine 1 [running]:\nmain.other(0x1)\n\t/x/y.go:1 +0x1\nexit status 2\nmore\n"), FinalWithData: true}, namingOpts())
 		}
 		again := detRun(in, namingOpts())
 		r.Eval(1)
